@@ -191,3 +191,63 @@ func c20PopCancelsOwn(cs *c20ctx, pop *ssa.Function) bool {
 	})
 	return found
 }
+
+// c20StackWrites lists the instructions of fn, and of the functions of package ctxstack it calls
+// statically (transitively), that modify the cancel-function stack: a store of the slice header
+// field, or a store into one of its elements.
+func c20StackWrites(cs *c20ctx, fn *ssa.Function, field int) []ssa.Instruction {
+	var out []ssa.Instruction
+	seen := map[*ssa.Function]bool{}
+	var visit func(f *ssa.Function, depth int)
+	visit = func(f *ssa.Function, depth int) {
+		if f == nil || seen[f] || f.Blocks == nil || depth > 6 {
+			return
+		}
+		seen[f] = true
+		fw.EachInstr(f, func(ins ssa.Instruction) {
+			switch x := ins.(type) {
+			case *ssa.Store:
+				switch a := x.Addr.(type) {
+				case *ssa.FieldAddr:
+					if cs.isStackPtr(a.X.Type()) && a.Field == field {
+						out = append(out, ins)
+					}
+				case *ssa.IndexAddr:
+					deps := map[*ssa.UnOp]bool{}
+					cs.guardedLoadsIn(f, a.X, deps, map[ssa.Value]bool{})
+					if len(deps) > 0 {
+						out = append(out, ins)
+					}
+				}
+			case ssa.CallInstruction:
+				callee := x.Common().StaticCallee()
+				if callee == nil {
+					if mc, ok := fw.C20Resolve(x.Common().Value).(*ssa.MakeClosure); ok {
+						callee, _ = mc.Fn.(*ssa.Function)
+					}
+				}
+				if callee != nil && fw.FnPkgPath(callee) == c20StackPkg {
+					visit(callee, depth+1)
+				}
+			}
+		})
+	}
+	visit(fn, 0)
+	return out
+}
+
+// c20TriggerReadOnly: membership of the stack is owned by Push and the pop closure alone. An
+// evaluation the trigger goroutine has cancelled is still IN PROGRESS until its iterator
+// wrapper has seen the cancellation and popped it; if the trigger goroutine removes (or
+// replaces) the entry itself, the enclosing evaluation becomes the top of the stack while the
+// interrupted one is still unwinding, and the next interrupt (^C hit twice, key repeat)
+// cancels the enclosing evaluation.
+func c20TriggerReadOnly(ru *fw.Rule, cs *c20ctx, trigger *ssa.Function, field int) {
+	p := cs.p
+	ws := c20StackWrites(cs, trigger, field)
+	if len(ws) == 0 {
+		ru.Ok("trigger:does not modify the stack", p.Rel(trigger.Pos()), "no store to cancelFns or its elements in the trigger goroutine (helpers followed)")
+		return
+	}
+	ru.Fail("trigger:does not modify the stack", p.Rel(ws[0].Pos()), "the trigger goroutine (or a helper it calls) modifies the cancel-function stack: the evaluation it has just cancelled is still unwinding and has not popped itself, so with its entry removed or replaced a second interrupt arriving before that cancels the ENCLOSING evaluation (only Push may add and only the pop closure may remove entries)")
+}
